@@ -119,7 +119,8 @@ def run(rep):
             "theorem": "C08_bound / C08_not_lost premise wf_C08 inst = true, cap_of inst = option"}, found=found)
     ok, out = inst.prove_instances(PID, mod, good, "wf_C08",
                                    ["fun (A V : Type) sem sem_slf dv => @C08_not_lost A V sem sem_slf dv {i} {w}",
-                                    "fun (A V : Type) sem sem_slf dv => @C08_blocked_waits A V sem sem_slf dv {i} {w}"],
+                                    "fun (A V : Type) sem sem_slf dv => @C08_blocked_waits A V sem sem_slf dv {i} {w}",
+                                    "fun (A V : Type) sem sem_slf dv n (H : cap_of {i} = Some n) => @C08_blocked_until_take A V sem sem_slf dv {i} n H"],
                                    extra_imports="From IT Require Import Properties.C08.")
     for _ in good:
         rep.oblige(ok)
